@@ -16,16 +16,28 @@ def make_gmm(p, floors=True, **kw):
     return g
 
 
-def make_stats(d, C=None, F=None):
+def _layout(a, layout):
+    """Same values in another memory layout: 'F' column-major, 'strided' a view into a larger buffer."""
+    if layout == "F":
+        return np.asfortranarray(a)
+    if layout == "strided":
+        big = np.full(tuple(2 * k for k in a.shape), np.nan)
+        view = big[tuple(slice(None, None, 2) for _ in a.shape)]
+        view[...] = a
+        return view
+    return a
+
+
+def make_stats(d, C=None, F=None, layout="C"):
     n = np.array(d["n"], dtype=float)
     f = np.array(d["sum_px"], dtype=float)
     C = C or f.shape[0]
     F = F or f.shape[1]
     s = GMMStats(C, F)
     s.t = int(d["t"])
-    s.n = n
-    s.sum_px = f
-    s.sum_pxx = np.array(d.get("sum_pxx", np.zeros_like(f)), dtype=float)
+    s.n = _layout(n, layout if layout == "strided" else "C")
+    s.sum_px = _layout(f, layout)
+    s.sum_pxx = _layout(np.array(d.get("sum_pxx", np.zeros_like(f)), dtype=float), layout)
     s.log_likelihood = float(d.get("log_likelihood", 0.0))
     return s
 
@@ -59,19 +71,32 @@ def make_fa(case, **kw):
     from bob.learn.em import ISVMachine, JFAMachine
 
     ubm = make_gmm(case["ubm"])
+    first = ubm
+    if case.get("swap_ubm"):
+        # the machine is built on ANOTHER UBM of the same shape and given its final UBM afterwards through the
+        # public attribute: everything computed later must refer to the UBM the machine holds now
+        other = dict(case["ubm"])
+        other["means"] = np.array(case["ubm"]["means"]) * 1.3 + 0.7
+        other["variances"] = np.array(case["ubm"]["variances"]) * 2.5
+        first = make_gmm(other)
     U = np.array(case["U"], dtype=float)
     if case["jfa"]:
-        m = JFAMachine(r_U=U.shape[1], r_V=np.asarray(case["V"]).shape[1], ubm=ubm, **kw)
-        m.V = np.array(case["V"], dtype=float)
+        m = JFAMachine(r_U=U.shape[1], r_V=np.asarray(case["V"]).shape[1], ubm=first, **kw)
     else:
-        m = ISVMachine(r_U=U.shape[1], ubm=ubm, **kw)
+        m = ISVMachine(r_U=U.shape[1], ubm=first, **kw)
+    if case.get("swap_ubm"):
+        if case["swap_ubm"] == "after_use":
+            m.estimate_x([first.acc_stats(np.array(case["ubm"]["means"][:1]))])
+        m.ubm = ubm
+    if case["jfa"]:
+        m.V = np.array(case["V"], dtype=float)
     m.U = U
     m.D = np.array(case["D"], dtype=float)
     return m
 
 
 def sessions_of(case, key="sessions"):
-    return [make_stats(s) for s in case[key]]
+    return [make_stats(s, layout=case.get("stats_layout", "C")) for s in case[key]]
 
 
 def nf(sessions):
